@@ -263,6 +263,24 @@ func (w *writerA) writeErrorEndsMessage() {
 	}
 }
 
+// sameObject strips conversions, boxing and interface-to-interface type
+// assertions (w.(io.StringWriter) is w).
+func sameObject(t *core.Term) *core.Term {
+	for t != nil {
+		switch {
+		case t.Kind == core.KConv || t.Kind == core.KMakeIface:
+			t = t.Args[0]
+		case t.Kind == core.KTypeAssert:
+			t = t.Args[0]
+		case t.Kind == core.KExtract && t.N == 0 && t.Args[0].Kind == core.KTypeAssert:
+			t = t.Args[0].Args[0]
+		default:
+			return t
+		}
+	}
+	return t
+}
+
 // implicitClose: previous writer closed first; new writer installed after success.
 func (w *writerA) implicitClose() {
 	c, r := w.c, w.c.R
@@ -380,7 +398,17 @@ func (w *writerA) localWriters(rule string) {
 					closed, writeFailed := false, false
 					for k := i + 1; k < len(p.Events); k++ {
 						e2 := &p.Events[k]
-						if e2.Kind != core.EvCall || e2.Static != nil || e2.Method == nil || strip(e2.Recv) != wr {
+						// io.WriteString(w, s) / fmt.Fprint*(w, ..) fail only when the writer fails
+						if e2.Kind == core.EvCall && e2.Static != nil && len(e2.Args) > 0 && strip(e2.Args[0]) == wr {
+							switch extName(e2.Static) {
+							case "io.WriteString", "fmt.Fprint", "fmt.Fprintf", "fmt.Fprintln":
+								we := errOf(p.X, e2.Result)
+								if we != nil && hasLit(p, len(p.Lits), false, func(t *core.Term) bool { return isEqNil(t, is(we)) }) {
+									writeFailed = true
+								}
+							}
+						}
+						if e2.Kind != core.EvCall || e2.Static != nil || e2.Method == nil || sameObject(e2.Recv) != wr {
 							continue
 						}
 						switch e2.Method.Name() {
